@@ -167,6 +167,23 @@ pub fn run(args: &[String]) {
             } else {
                 chars.clone()
             };
+            // in a third of the texts the letters inside string literals become multi-byte characters first: errors
+            // located to the right of them then have a column that differs from the byte offset
+            if rng.gen_bool(0.33) {
+                let wide = ['\u{e9}', '\u{3b1}', '\u{905}', '\u{1F600}'];
+                let mut inside = false;
+                let mut k = 0;
+                while k < c.len() {
+                    match c[k] {
+                        '\\' if inside => k += 1,
+                        '"' => inside = !inside,
+                        '\n' => inside = false,
+                        ch if inside && ch.is_ascii_alphanumeric() && rng.gen_bool(0.7) => c[k] = wide[rng.gen_range(0..wide.len())],
+                        _ => {}
+                    }
+                    k += 1;
+                }
+            }
             let fault;
             match rng.gen_range(0..7) {
                 0 if !c.is_empty() => {
